@@ -3,7 +3,7 @@
    the transcendental closures of [K], and encodes the result. *)
 From Coq Require Import ZArith QArith Qcanon List.
 From GB Require Import Base.Field Base.FNum Model.Shell Model.MomentInt Model.Spherical
-  Model.Assembly Model.Overlap Extract.Sx.
+  Model.Assembly Model.Overlap Model.DiffOp Model.OneBody Extract.Sx.
 Import ListNotations.
 
 Definition err (code : Z) : sx := SL [SZ (-1); SZ code].
@@ -28,6 +28,25 @@ Definition run_core (K : Fops Qc) (c : Z) (args : list sx) : option sx :=
   | 5%Z, [SL [cx; cy; cz]; orders; sa; sb] =>
       Some (enc5 (mm_block K (dec_q cx) (dec_q cy) (dec_q cz) (dec_list dec_comp orders)
                 (dec_shell sa) (dec_shell sb)))
+  (* 6/7: kinetic block / kinetic_energy_integral *)
+  | 6%Z, [sa; sb] => Some (enc4 (kinetic_block K (dec_shell sa) (dec_shell sb)))
+  | 7%Z, [basis; t] =>
+      Some (enc2 (kinetic_integral K (dec_list dec_shell basis) (dec_opt dec_mat t)))
+  (* 8/9: Moment.construct_array_contraction / moment_integral -> [..][..][D] *)
+  | 8%Z, [SL [cx; cy; cz]; orders; sa; sb] =>
+      Some (enc5 (moment_block K (dec_q cx) (dec_q cy) (dec_q cz) (dec_list dec_comp orders)
+                (dec_shell sa) (dec_shell sb)))
+  | 9%Z, [SL [cx; cy; cz]; orders; basis; t] =>
+      Some (enc3 (moment_integral K (dec_q cx) (dec_q cy) (dec_q cz) (dec_list dec_comp orders)
+                (dec_list dec_shell basis) (dec_opt dec_mat t)))
+  (* 10/11: momentum block / integral, real part R of -i R *)
+  | 10%Z, [sa; sb] => Some (enc5 (momentum_block_re K (dec_shell sa) (dec_shell sb)))
+  | 11%Z, [basis; t] =>
+      Some (enc3 (momentum_integral_re K (dec_list dec_shell basis) (dec_opt dec_mat t)))
+  (* 12/13: angular momentum block / integral, real part R of -i R *)
+  | 12%Z, [sa; sb] => Some (enc5 (angmom_block_re K (dec_shell sa) (dec_shell sb)))
+  | 13%Z, [basis; t] =>
+      Some (enc3 (angmom_integral_re K (dec_list dec_shell basis) (dec_opt dec_mat t)))
   | _, _ => None
   end.
 
